@@ -350,7 +350,7 @@ func (e *Exec) havocPointee(h *Heap, a Val, depth int) {
 				}
 			}
 		}
-		if !e.pointeesOnly {
+		if !e.pointeesOnly && !isStringType(t.Elem()) {
 			h.m[comp] = store(e.hget(h, comp), base, e.s.freshConst("hv", e.s.arrSort(e.s.sortOf(t.Elem()))))
 		}
 	case *types.Map:
